@@ -17,6 +17,8 @@ use crate::engine::Ctx;
 use crate::feops::{locally_rejected, make_lent, op_strategy, oversized, FeOp, Ret};
 use crate::rec_backend::{config_pattern, Outcome};
 use crate::spec;
+use std::os::unix::io::AsRawFd;
+use vhost::vhost_user::message::VhostUserHeaderFlag;
 
 pub const F2_SIG: &str = "C03/F2-get_config-blocks-forever-when-the-back-end-answers-with-a-zero-size-config";
 
@@ -151,6 +153,102 @@ pub fn run_case(ctx: &mut Ctx, c: &Case) -> Result<(), String> {
     res
 }
 
+// ------------------------------------------------------------------ (b) the real daemon: failures reported by the device
+
+#[derive(Serialize, Deserialize, Debug, Clone)]
+pub struct DaemonCase {
+    /// 0 get_shmem_config, 1 get_shared_object, 2 set_config, 3 check_device_state, 4 set_device_state_fd,
+    /// 5 get_config (wrong length when cfg_delta != 0), 6 set_log_base with an unmappable log, 7 get_max_mem_slots
+    pub op: u8,
+    pub fail: bool,
+    pub cfg_delta: i8,
+    pub need_reply: bool,
+    pub wrap: crate::daemon_fx::Wrap,
+}
+
+/// The front end talks to a running VhostUserDaemon (the daemon's own error policy, not the harness's emulation of it):
+/// a failure the *device* reports must reach the caller as an error in bounded time, a success as the device's values.
+pub fn run_daemon_case(ctx: &mut Ctx, c: &DaemonCase) -> Result<(), String> {
+    use crate::daemon_fx::{BeCfg, Fx, VMutex};
+    use std::sync::atomic::Ordering;
+    use vhost::vhost_user::message::{VhostTransferStateDirection, VhostTransferStatePhase, VhostUserConfigFlags, VhostUserProtocolFeatures, VhostUserSharedMsg};
+    use vhost::vhost_user::VhostUserFrontend;
+    use vhost::VhostBackend;
+    let mut fx: Fx<VMutex> = Fx::new_wrapped(BeCfg { num_queues: 2, ..Default::default() }, c.wrap).map_err(|e| format!("fixture: {e}"))?;
+    fx.connect().map_err(|e| format!("fixture: {e}"))?;
+    let mut f = fx.frontend(2);
+    let res = (|| -> Result<(), String> {
+        let feats = f.get_features().map_err(|e| format!("negotiation: {e:?}"))?;
+        f.set_features(feats).map_err(|e| format!("negotiation: {e:?}"))?;
+        let pf = f.get_protocol_features().map_err(|e| format!("negotiation: {e:?}"))?;
+        f.set_protocol_features(pf).map_err(|e| format!("negotiation: {e:?}"))?;
+        f.set_owner().map_err(|e| format!("negotiation: {e:?}"))?;
+        if c.need_reply {
+            f.set_hdr_flags(VhostUserHeaderFlag::NEED_REPLY);
+        }
+        let wrong_len = c.op == 5 && c.cfg_delta != 0;
+        let must_fail = (c.fail && matches!(c.op, 0..=4)) || wrong_len || c.op == 6;
+        fx.be.fail_device_calls.store(c.fail, Ordering::SeqCst);
+        fx.be.config_len_delta.store(if c.op == 5 { c.cfg_delta as i32 } else { 0 }, Ordering::SeqCst);
+        let op = c.op;
+        let has_answer = match op {
+            2 => c.need_reply && pf.contains(VhostUserProtocolFeatures::REPLY_ACK),
+            _ => true,
+        };
+        let mut f2 = f.clone();
+        let h = std::thread::Builder::new()
+            .name("c03_daemon_call".into())
+            .spawn(move || -> Result<String, String> {
+                let e = |e: vhost::Error| format!("{e:?}");
+                match op {
+                    0 => f2.get_shmem_config().map(|c| format!("{c:?}")).map_err(|x| format!("{x:?}")),
+                    1 => {
+                        let mut u = VhostUserSharedMsg::default();
+                        u.uuid = uuid::Uuid::from_bytes([9; 16]);
+                        f2.get_shared_object(&u).map(|_| "file".to_string()).map_err(|x| format!("{x:?}"))
+                    }
+                    2 => f2.set_config(0x10, VhostUserConfigFlags::WRITABLE, &[1, 2, 3, 4]).map(|_| "()".into()).map_err(|x| format!("{x:?}")),
+                    3 => f2.check_device_state().map(|_| "()".into()).map_err(|x| format!("{x:?}")),
+                    4 => {
+                        let fd = crate::fdtrack::make_fd(crate::fdtrack::FdKind::Pipe);
+                        f2.set_device_state_fd(VhostTransferStateDirection::SAVE, VhostTransferStatePhase::STOPPED, fd).map(|r| format!("{:?}", r.is_some())).map_err(|x| format!("{x:?}"))
+                    }
+                    5 => f2.get_config(0x20, 8, VhostUserConfigFlags::WRITABLE, &[0u8; 8]).map(|(_, p)| format!("{p:?}")).map_err(|x| format!("{x:?}")),
+                    6 => {
+                        // a log the daemon cannot map: an eventfd
+                        let ev = crate::daemon_fx::new_eventfd();
+                        let region = vhost::VhostUserDirtyLogRegion { mmap_size: 0x1000, mmap_offset: 0, mmap_handle: ev.as_raw_fd() };
+                        f2.set_log_base(0, Some(region)).map(|_| "()".into()).map_err(e)
+                    }
+                    _ => f2.get_max_mem_slots().map(|v| v.to_string()).map_err(|x| format!("{x:?}")),
+                }
+            })
+            .map_err(|e| e.to_string())?;
+        let t0 = std::time::Instant::now();
+        while !h.is_finished() {
+            if t0.elapsed() > std::time::Duration::from_secs(10) {
+                return Err(format!("{c:?}: the call did not return within 10 s (the daemon {}; awaited answer: {has_answer})", if crate::daemon_fx::thread_states().iter().any(|(_, n)| n.starts_with("vverif-daemon")) { "is still serving the connection" } else { "thread has ended" }));
+            }
+            std::thread::sleep(std::time::Duration::from_micros(200));
+        }
+        let r = h.join().map_err(|_| "call thread panicked".to_string())?;
+        ctx.class(if must_fail { "daemon_device_failure" } else { "daemon_device_success" });
+        ctx.nontrivial(&("daemon", c.op, c.fail, c.cfg_delta.signum(), c.need_reply, c.wrap));
+        ctx.sample(|| json!({"daemon_case": c, "result": format!("{r:?}")}));
+        match (&r, must_fail, has_answer) {
+            (Ok(v), true, true) => Err(format!("{c:?}: the device failed (or produced an unusable result) but the call returned Ok({v})")),
+            (Err(e), false, _) => Err(format!("{c:?}: the device succeeded but the call returned Err({e})")),
+            (Ok(v), false, _) if c.op == 5 && v != &format!("{:?}", crate::rec_backend::config_pattern(0x20, 8)) => Err(format!("{c:?}: get_config returned {v}, the device produced {:?}", crate::rec_backend::config_pattern(0x20, 8))),
+            (Ok(v), false, _) if c.op == 7 && v != "509" && v.parse::<u64>().is_err() => Err(format!("{c:?}: odd value {v}")),
+            _ => Ok(()),
+        }
+    })();
+    drop(f);
+    let td = fx.teardown_checked(10);
+    res?;
+    td
+}
+
 fn outcome_strategy() -> impl Strategy<Value = Outcome> {
     (
         prop_oneof![2 => Just(None), 3 => (0u8..16).prop_map(Some)],
@@ -177,7 +275,7 @@ pub fn run(ctx: &mut Ctx) {
                 generated config bytes / with or without file, Err(16 error variants), unusable success (config bytes of length 0, n+-k, 4096; \
                 queue count 0x8001 / 2^64-1)} x REPLY_ACK on/off x NEED_REPLY on/off x {virtio features acknowledged with bit 30, without it, never}, after a prefix of 0..5 successful calls; both real endpoints, \
                 server with the daemon's stop-at-first-error policy; the call runs in a helper thread so that a call that never returns is seen. \
-                Non-trivial = a failing / unusable outcome, a success with a file or a non-zero value; distinct by (operation, outcome class, \
+                (b) against a running VhostUserDaemon (direct / Mutex / RwLock wrapped back end): 8 reply-bearing or acknowledged operations x device-level success / failure / wrong-length configuration x NEED_REPLY. Non-trivial = a failing / unusable outcome, a success with a file or a non-zero value; distinct by (operation, outcome class, \
                 ack configuration, prefix length class)."
         .into();
     ctx.assumptions = vec![
@@ -215,4 +313,21 @@ pub fn run(ctx: &mut Ctx) {
     let target = prop_oneof![5 => (target_strategy(), outcome_strategy()), 1 => cfg];
     let strat = (neg, proptest::collection::vec(op_strategy(), 0..5), target).prop_map(|(neg, prefix, (op, outcome))| Case { neg, prefix, op, outcome });
     ctx.prop_check("outcomes", n, strat, |ctx, c| run_case(ctx, c));
+
+    // (b) the same question against a running VhostUserDaemon (its own policy towards failed requests), device-level failures
+    let mut dc = Vec::new();
+    for wrap in [crate::daemon_fx::Wrap::Direct, crate::daemon_fx::Wrap::Mutex, crate::daemon_fx::Wrap::RwLock] {
+        for op in 0u8..=7 {
+            for fail in [false, true] {
+                for need_reply in [false, true] {
+                    for cfg_delta in if op == 5 { vec![0i8, -1, 1, -8, 8] } else { vec![0i8] } {
+                        dc.push(DaemonCase { op, fail, cfg_delta, need_reply, wrap });
+                    }
+                }
+            }
+        }
+    }
+    let reps = ctx.tier.pick(1usize, 20usize);
+    let dc: Vec<DaemonCase> = (0..reps).flat_map(|_| dc.clone()).collect();
+    ctx.enumerate("daemon_device_outcomes", dc, |ctx, c| run_daemon_case(ctx, c));
 }
